@@ -186,3 +186,10 @@ Proof.
   split; [exact E2|]. split; [exact E3|]. split; [|exists rs; split; assumption].
   rewrite (map_stat_view_names _ _ E4), names_drop. exact (convert_all_names _ _ _ E1).
 Qed.
+
+(* since /repo 61aefd0 ([stop_byte_refused] = true): a stream with a NUL byte in a name is refused *)
+Theorem file_rt_names_nul_rejected : forall refs rps ss, stream_has_nul ss = true ->
+  file_rt_names refs rps ss = MWriteErr /\ file_name_blocks refs rps ss = None.
+Proof.
+  intros refs rps ss H. unfold file_rt_names, file_name_blocks. rewrite H. split; reflexivity.
+Qed.
